@@ -33,6 +33,10 @@ struct track
     bool has_local_ip;
     struct xcm_addr_ip local_ip;
     uint16_t local_port;
+    /* A socket is reused for all attempts of its address family, but
+       may be bound only once. */
+    bool fd4_bound;
+    bool fd6_bound;
     int64_t scope;
 
     struct xcm_addr_ip *remote_ips;
@@ -129,6 +133,12 @@ static int track_get_current_fd(struct track *track)
     return *fd;
 }
 
+static bool *track_get_current_fd_bound_ptr(struct track *track)
+{
+    return track_get_current_family(track) == AF_INET ?
+	&track->fd4_bound : &track->fd6_bound;
+}
+
 static void track_disassociate_current_fd(struct track *track)
 {
     int *fd = track_get_current_fd_ptr(track);
@@ -201,7 +211,9 @@ static void track_connect_next(struct track *track)
 	return;
     }
 
-    if (track->has_local_ip) {
+    bool *fd_bound = track_get_current_fd_bound_ptr(track);
+
+    if (track->has_local_ip && !*fd_bound) {
 	struct sockaddr_storage laddr;
 	int64_t scope = track_get_current_scope(track);
 
@@ -218,6 +230,8 @@ static void track_connect_next(struct track *track)
 	    track_connect_next(track);
 	    return;
 	}
+
+	*fd_bound = true;
     }
 
     ut_assert(track->fd_reg_id == -1);
